@@ -30,6 +30,19 @@ def explore(ctx):
         if rng.random() < 0.4:
             c['npix'] = [rng.randint(2, 3), 1]
         c['layout'] = rng.choice(['C', 'C', 'F', 'strided', 'readonly', 'T'])
+        int_stream = rng.random() < 0.2
+        if int_stream:
+            # integer data reaching both ends of the dtype (0 for unsigned types), default threshold: a loaded
+            # dendrogram keeps numpy scalars of that dtype in its structures
+            dt = rng.choice(['uint8', 'uint8', 'uint16', 'uint32', 'int8', 'int16', 'uint64', 'int64'])
+            info = np.iinfo(dt)
+            span = rng.choice([6, 12, 40])
+            base = rng.choice([info.min, info.min, info.max - span, 0 if info.min < 0 else info.min])
+            c['vals'] = [int(base + (abs(int(v)) % (span + 1))) for v in (x if x is not None else 0 for x in c['vals'])]
+            c['dtype'], c['scale'], c['minv'], c['delta'] = dt, 0, None, 0
+            c.pop('den', None)
+            c['npix'] = [0, 1] if rng.random() < 0.7 else c.get('npix', [0, 1])
+            ctx.count('integer_bounds_stream')
         try:
             if c['layout'] == 'T' and len(c['shape']) >= 2:
                 # build the array in reversed-axes order and pass its transpose
@@ -60,12 +73,13 @@ def explore(ctx):
                 history.append(step)
             kind = 'pruned'
         variants = [(kind, d)]
-        if rng.random() < 0.35:
-            fmt = rng.choice(['hdf5', 'fits'])
+        for fmt in (['hdf5', 'fits'] if int_stream else ([rng.choice(['hdf5', 'fits'])] if rng.random() < 0.35 else [])):
             try:
                 variants.append(('loaded-' + fmt, dc.save_load(d, fmt, how=rng.choice(['explicit', 'auto']))))
             except Exception as e:
-                ctx.oracle_failure({'case': c, 'history': history + ['save/load ' + fmt]}, ['save/load raised %r' % (e,)])
+                # whether a dendrogram can be saved and loaded is C09's question (a failure there is reported by
+                # ./check C09); here there is simply no loaded dendrogram whose accessors could be examined
+                ctx.count('loaded_variant_unavailable/%s' % type(e).__name__)
         for kind, dd in variants:
             ctx.count('dendrogram=' + kind)
             ctx.count('layout=' + c['layout'])
